@@ -310,6 +310,26 @@ func childC19(args []string) int {
 		}
 	}
 
+	// labels longer than an IPv4 "ip:port": tcp6 remote addresses of one subnet and long host names,
+	// which share a long common prefix (the label is whatever the bucket reports, of any length)
+	for fi, n := range []int{3, 6, 8} {
+		labels := make([]string, 0, n)
+		seen := map[string]bool{}
+		for len(labels) < n {
+			var l string
+			if fi%2 == 0 {
+				l = fmt.Sprintf("[2001:db8:85a3:8d3:1319:8a2e:%x:%x]:11211", rng.Intn(65536), rng.Intn(65536))
+			} else {
+				l = fmt.Sprintf("cache-node-memcached-production-eu-west-1b-%05d.internal.example.net:11211", rng.Intn(100000))
+			}
+			if !seen[l] {
+				seen[l] = true
+				labels = append(labels, l)
+			}
+		}
+		checkSet("long-label", labels, 20000)
+	}
+
 	// label sets containing two nodes with an equal ring point
 	announceCase("collision search")
 	nlab := run.Pick(12000, 40000)
